@@ -44,6 +44,8 @@ def run(ctx):
                      'legacy wrapper under the same name, and vice versa', 2)
     ctx.rule('R16f', 'std_macro builds the argument string as optional `[` followed by numargs `{`; '
                      'std_environment forwards to it with make_environment_spec', 2)
+    ctx.rule('R16l', 'legacy methods leave their argument objects unchanged (a list passed as include_brace_chars '
+                     'is copied before it is extended)', 1)
     ctx.rule('R16k', 'legacy argspec "[": leading whitespace before the optional argument is accepted unless '
                      'optional_arg_no_space is set, like the argument-string spelling', 1)
     ctx.rule('R16j', 'a spec given a legacy args parser object keeps its body delta (is_math_mode) unless the '
@@ -167,6 +169,20 @@ def run(ctx):
                 m_ = re.match(r'(stop_upon_\w+) is not None$', t)
                 if m_:
                     p_stop.add(m_.group(1))
+    # the stop options are independent of each other: a token that satisfies one of them stops
+    # the collection whatever the other options are (no `elif` chain between them)
+    if stc:
+        for i in ast.walk(stc[0]):
+            if isinstance(i, ast.If) and re.match(r'(stop_upon_\w+) is not None$', unparse(i.test)):
+                par = getattr(i, '_parent', None)
+                chained = isinstance(par, ast.If) and any(i is x for x in par.orelse) and \
+                    re.match(r'(stop_upon_\w+) is not None$', unparse(par.test))
+                ctx.decide('R16b2', not chained, w, i, '%s is tested independently' % unparse(i.test),
+                           'the test `%s` is only reached when `%s` is false: with two stop options given, a '
+                           'token that satisfies the later one does not stop the collection, while the '
+                           'equivalent LatexGeneralNodesParser (any of the conditions) stops'
+                           % (unparse(i.test), unparse(par.test) if chained else ''),
+                           construct='get_latex_nodes: independent stop option ' + unparse(i.test))
     p_req = _required_when(f, 'require_stop_condition_met')
     ctx.decide('R16b2', p_req is not None and p_stop == p_req and bool(p_stop), w, f,
                'stop required exactly for %s' % sorted(p_stop),
@@ -183,6 +199,55 @@ def run(ctx):
         ctx.decide('R16a', fw, w, gp[0], 'all stop options forwarded under their own names',
                    'get_latex_nodes does not forward all of its stop options to '
                    'LatexGeneralNodesParser under their own names', construct='get_latex_nodes: forwarding')
+
+    # ---- R16l: legacy methods do not modify the objects they are given (lists of delimiters ...)
+    MUT_ = ('append', 'extend', 'insert', 'pop', 'remove', 'clear', 'sort', 'reverse', 'update')
+    n_mut = 0
+    for shim, fnode in sorted(w.functions.items()):
+        if not shim.startswith('_pyltxenc2_LatexWalker_') or '.' in shim:
+            continue
+        fparams = {a.arg for a in fnode.args.args[1:]} | {a.arg for a in fnode.args.kwonlyargs}
+        if not fparams:
+            continue
+        # in-place changes: P.append(..) / P += [...] where the name still denotes the caller's object
+        try:
+            wk = symex.Walker(is_sink=lambda c: call_name(c) in MUT_ and isinstance(call_recv(c), ast.Name)
+                              and call_recv(c).id in fparams, pure=('list', 'dict', 'tuple', 'set'))
+            cases = wk.run(fnode)
+        except symex.TooManyPaths:
+            cases = []
+        for cs in cases:
+            rv = call_recv(cs.sub)
+            if isinstance(rv, ast.Name) and rv.id in fparams:
+                n_mut += 1
+                ctx.refuted('R16l', w, cs.node, '%s changes its argument %s in place (%s) on the path [%s]: the '
+                            'caller\'s list is modified, so a later call with the same object behaves '
+                            'differently from the equivalent new-style call'
+                            % (shim.replace('_pyltxenc2_LatexWalker_', ''), rv.id, short(cs.node, 40),
+                               ' & '.join(cs.cond_src())[-80:]), construct='%s: in-place %s' % (shim, short(cs.node, 40)))
+        for st_ in iter_own(fnode):
+            if isinstance(st_, ast.AugAssign) and isinstance(st_.target, ast.Name) and st_.target.id in fparams \
+                    and isinstance(st_.op, ast.Add):
+                # `P += [...]` extends P in place unless P was re-bound to a fresh copy on every path before
+                try:
+                    cs2 = symex.Walker(is_sink=lambda n: n is st_.value, sink_types=(type(st_.value),),
+                                       pure=('list', 'dict', 'tuple', 'set')).run(fnode)
+                except symex.TooManyPaths:
+                    cs2 = []
+                for cs in cs2:
+                    cur = cs.env.get(st_.target.id)
+                    fresh = cur is not None and not (isinstance(cur, ast.Name) and cur.id == st_.target.id)
+                    if not fresh:
+                        n_mut += 1
+                        ctx.refuted('R16l', w, st_, '%s extends its argument %s in place (`%s`) on the path [%s] '
+                                    'without first re-binding it to a copy: the caller\'s list grows, so a later '
+                                    'call with the same list also treats these delimiters as braces'
+                                    % (shim.replace('_pyltxenc2_LatexWalker_', ''), st_.target.id, short(st_, 50),
+                                       ' & '.join(cs.cond_src())[-80:]),
+                                    construct='%s: in-place %s' % (shim, short(st_, 40)))
+                        break
+    ctx.holds('R16l', w, None, 'no legacy method modifies an argument object in place', construct='argument mutation scan',
+              trivial=True)
 
     # ---- R16k: the legacy '[' argument may be preceded by whitespace unless optional_arg_no_space
     bm_ = repo.mod(BASE)
